@@ -20,7 +20,15 @@ let cert_of s =
   | _ -> failwith "cert fields"
 let vchain_of s = if s = "none" then None else Some (List.map cert_of (String.split_on_char ';' s))
 let opt_hex s = if s = "err" then None else Some (unhex s)
-let wait_of = function "ok" -> 0 | "full" -> 1 | "evicted" -> 2 | "sunset" -> 3 | _ -> 4
+(* "issuerfail": addLeafToPool returned the issuer error (uploadIssuer failed): WOther, like any
+   other error of the wait function *)
+let wait_of = function "ok" -> 0 | "full" -> 1 | "evicted" -> 2 | "sunset" -> 3 | "issuerfail" -> 4 | _ -> 4
+let stored_of = function "none" -> 0 | "same" -> 1 | _ -> 2
+let rec zip5 a b c d e = match a, b, c, d, e with
+  | x :: a, k :: b, s :: c, f :: d, u :: e ->
+    (unhex x, (b01 k, (n_of_int (stored_of s), (b01 f, b01 u)))) :: zip5 a b c d e
+  | [], [], [], [], [] -> []
+  | _ -> failwith "upissuers: field lengths differ"
 let state = ref (fst (run_load sha [] [] false))
 let () =
   iter_lines (fun line ->
@@ -32,6 +40,9 @@ let () =
         | "submit", [ep; bodylen; json; raws; vchain; tbsnone; tbspre; now; wait] ->
           run_submit sha (ep = "prechain") (n_of_int (int_of_string bodylen)) (json = "ok") (hexlist raws)
             (vchain_of vchain) (opt_hex tbsnone) (opt_hex tbspre) (z_of_string now) (n_of_int (wait_of wait))
+        | "upissuers", [issuers; known; stored; fetchok; uploadok] ->
+          run_upissuers sha (zip5 (split_on ',' issuers) (split_on ',' known) (split_on ',' stored)
+                               (split_on ',' fetchok) (split_on ',' uploadok))
         | "loadroots", [stored; ok; certs] ->
           let (st, r) = run_load sha (unhex stored) (hexlist certs) (b01 ok) in state := st; r
         | "setroots", [pem; ok; certs; up] ->
